@@ -49,6 +49,18 @@ static const char **__include_func(config_t *config,
 
 // ---------------------------------------------------------------------------
 
+// strdup() that reports an allocation failure like operator new does.
+static char *__strdup_or_throw(const char *s)
+{
+  char *r = ::strdup(s);
+  if(! r)
+    throw std::bad_alloc();
+
+  return(r);
+}
+
+// ---------------------------------------------------------------------------
+
 static void __fatal_error_func(const char *message)
 {
   // Assume memory allocation failure; this is the only fatal error
@@ -59,7 +71,7 @@ static void __fatal_error_func(const char *message)
 // ---------------------------------------------------------------------------
 
 ParseException::ParseException(const char *file, int line, const char *error)
-  : _file(file ? ::strdup(file) : NULL), _line(line), _error(error)
+  : _file(file ? __strdup_or_throw(file) : NULL), _line(line), _error(error)
 {
 }
 
@@ -67,7 +79,7 @@ ParseException::ParseException(const char *file, int line, const char *error)
 
 ParseException::ParseException(const ParseException &other)
   : ConfigException(other),
-    _file(other._file ? ::strdup(other._file) : NULL),
+    _file(other._file ? __strdup_or_throw(other._file) : NULL),
     _line(other._line),
     _error(other._error)
 {
@@ -162,7 +174,7 @@ SettingException::SettingException(const Setting &setting)
   std::stringstream sstr;
   __constructPath(setting, sstr);
 
-  _path = ::strdup(sstr.str().c_str());
+  _path = __strdup_or_throw(sstr.str().c_str());
 }
 
 // ---------------------------------------------------------------------------
@@ -173,7 +185,7 @@ SettingException::SettingException(const Setting &setting, int idx)
   __constructPath(setting, sstr);
   sstr << ".[" << idx << "]";
 
-  _path = ::strdup(sstr.str().c_str());
+  _path = __strdup_or_throw(sstr.str().c_str());
 }
 
 // ---------------------------------------------------------------------------
@@ -184,14 +196,14 @@ SettingException::SettingException(const Setting &setting, const char *name)
   __constructPath(setting, sstr);
   sstr << '.' << name;
 
-  _path = ::strdup(sstr.str().c_str());
+  _path = __strdup_or_throw(sstr.str().c_str());
 }
 
 // ---------------------------------------------------------------------------
 
 SettingException::SettingException(const char *path)
 {
-  _path = ::strdup(path ? path : "");
+  _path = __strdup_or_throw(path ? path : "");
 }
 
 // ---------------------------------------------------------------------------
@@ -206,15 +218,16 @@ const char *SettingException::getPath() const
 SettingException::SettingException(const SettingException &other)
   : ConfigException(other)
 {
-  _path = ::strdup(other._path);
+  _path = __strdup_or_throw(other._path);
 }
 
 // ---------------------------------------------------------------------------
 
 SettingException &SettingException::operator=(const SettingException &other)
 {
+  char *path = __strdup_or_throw(other._path);
   ::free(_path);
-  _path = ::strdup(other._path);
+  _path = path;
 
   return(*this);
 }
